@@ -151,7 +151,8 @@ def raster_strategy(draw, tier):
     co = st.integers(-64, 64).map(lambda v: v / 8.0)
     xyz = [[draw(co), draw(co), draw(co)] for _ in range(n)]
     r = [draw(st.integers(5, 48)) / 16.0 for _ in range(n)]
-    res = draw(st.sampled_from([0.5, 1, 1, 2, [1, 2, 0.5], [0.5, 1, 2], [2, 1, 1]]))
+    # resolutions are binary fractions (voxel centres add up exactly); several do not divide the bounding box evenly
+    res = draw(st.sampled_from([0.5, 1, 1, 2, [1, 2, 0.5], [0.5, 1, 2], [2, 1, 1], 1.5, 0.75, 2.5, [1, 1, 1.5], [1, 1, 3.5], [1.5, 1, 2.5]]))
     save = draw(st.integers(0, 3)) == 0
     if draw(st.integers(0, 5)) == 0:
         # a planar tracing (all nodes in one z plane, thin): stacks of one or two slices, or of none at all
@@ -160,7 +161,9 @@ def raster_strategy(draw, tier):
         r = [draw(st.integers(5, 14)) / 16.0 for _ in range(n)]
         res = draw(st.sampled_from([2, 2, 1, [1, 1, 2], [0.5, 1, 2]]))
         save = draw(st.integers(0, 1)) == 0
-    case = {"parents": parents, "xyz": xyz, "r": r, "res": res, "save": save}
+    case = {"parents": parents, "xyz": xyz, "r": r, "res": res, "save": save,
+            # saving with the progress display on (the default of transform_and_save) or off
+            "verbose": draw(st.booleans())}
     if draw(st.integers(0, 3)) == 0:
         # the region to rasterise is given by the caller (a common box for several neurons), as any array-like, and the
         # same objects are handed over again for a second raster
@@ -205,6 +208,8 @@ def run_raster(case, ctx):
     res3 = np.array([res] * 3 if not isinstance(res, list) else res, dtype=np.float64)
     aniso = isinstance(res, list)
     taper = any(p != -1 and r[i] != r[p] for i, p in enumerate(parents))
+    if any(float(v) not in (0.5, 1.0, 2.0) for v in res3):
+        ctx.cls("resolution-not-dividing-the-box")
     ctx.cls("res:aniso" if aniso else f"res:{res}", "taper" if taper else "no-taper", "saved" if case["save"] else "in-memory")
     ctx.nontrivial(aniso or taper)
     X = xyz.astype(np.float64)
@@ -285,10 +290,17 @@ def run_raster(case, ctx):
         path = os.path.join(ctx.tmpdir, "raster.tif")
         if os.path.exists(path):
             os.remove(path)
-        if ranges is None:
-            ctx.lib("transform_and_save", lambda: ToImageStack(res).transform_and_save(path, tree, verbose=False))
-        else:
-            ctx.lib("transform_and_save[ranges]", lambda: ToImageStack(res).transform_and_save(path, tree, verbose=False, ranges=ranges))
+        import contextlib
+        import io as _io
+
+        verbose = bool(case.get("verbose"))
+        if verbose:
+            ctx.cls("saved-with-the-progress-display-on")
+        with contextlib.redirect_stdout(_io.StringIO()), contextlib.redirect_stderr(_io.StringIO()):
+            if ranges is None:
+                ctx.lib("transform_and_save", lambda: ToImageStack(res).transform_and_save(path, tree, verbose=verbose))
+            else:
+                ctx.lib("transform_and_save[ranges]", lambda: ToImageStack(res).transform_and_save(path, tree, verbose=verbose, ranges=ranges))
         back = ctx.lib("read_imgs", lambda: read_imgs(path, dtype=np.uint8).get_full())
         want = np.moveaxis(stack, 0, 2)[..., None]
         ctx.check(tuple(back.shape) == tuple(want.shape) and np.array_equal(back, want), "raster/saved-tiff-reads-back-the-same",
@@ -301,5 +313,6 @@ SUBCHECKS = [
                   "channels:3": 150, "channels:1": 150, "channels:None": 150, "path:f->u": 80, "path:u->f": 80}),
     Sub("raster", raster_strategy, run_raster, quick=1500, thorough=12000, shards_quick=4,
         required={"res:aniso": 60, "taper": 100, "saved": 30, "res:0.5": 15, "res:2": 15, "raster:single-slice": 20,
-                  "region-given-by-the-caller": 150, "region-as:float32": 40}),
+                  "region-given-by-the-caller": 150, "region-as:float32": 40, "resolution-not-dividing-the-box": 300,
+                  "saved-with-the-progress-display-on": 60}),
 ]
